@@ -37,6 +37,10 @@ def how(what):
         return 'direct c12'
     if 'does not return on this input' in what:
         return 'direct c17 (panic)'
+    if 'have the same rank' in what:
+        return 'direct c03'
+    if 'expanded before it in the same process' in what:
+        return 'direct c16 (history)'
     if 'custom clone method' in what:
         return 'direct c07'
     if '`unsafe`' in what:
